@@ -751,6 +751,7 @@ def m_index_range(sym, path, args, dty):
     path.vcs.append((list(path.pc), ok, "slice index start <= end <= len", path.trace[-1]))
     if ok != "true":
         path.pc.append(ok)
+    path.store["__last_slice"] = V("tuple", items=[st, en])
     return None  # result (a slice reference) is opaque
 
 
